@@ -44,7 +44,9 @@ func (l *letGen) value(depth int) ast.Expr {
 			return l.let(depth + 1)
 		}
 	case 4:
-		return ast.Var(gen.Pick(t, "anyvar", []string{"x", "y", "z", "q"}))
+		if rapid.IntRange(0, 3).Draw(t, "freevar") == 0 {
+			return ast.Var(gen.Pick(t, "anyvar", []string{"x", "y", "z", "q"}))
+		}
 	}
 	return l.field()
 }
@@ -54,7 +56,7 @@ func (l *letGen) value(depth int) ast.Expr {
 func (l *letGen) use(depth int) ast.Expr {
 	t := l.t
 	v := func() ast.Expr {
-		if len(l.vars) > 0 && rapid.IntRange(0, 5).Draw(t, "bound") > 0 {
+		if len(l.vars) > 0 && rapid.IntRange(0, 14).Draw(t, "bound") > 0 {
 			return ast.Var(gen.Pick(t, "usevar", l.vars))
 		}
 		return ast.Var(gen.Pick(t, "anyvar", []string{"x", "y", "z", "q"}))
